@@ -73,6 +73,22 @@ pub open spec fn fold_style_s(store: AttrStore, ctx: Context, n: &SyntaxNode) ->
 pub open spec fn code_body_disabled(store: AttrStore, n: &SyntaxNode) -> bool {
     exists|j: int| 0 <= j < n.children_s().len() && (#[trigger] n.children_s()[j]).kind_s() == SyntaxKind::Code && store.disabled_s(n.children_s()[j].span_s())
 }
+/// the children of a code block with the `Code` child replaced by its own children (what convert_code_block hands to the list engine)
+pub open spec fn flat_code<'a>(ch: Seq<&'a SyntaxNode>) -> Seq<&'a SyntaxNode> decreases ch.len() {
+    if ch.len() == 0 { Seq::empty() }
+    else if ch.last().kind_s() == SyntaxKind::Code { flat_code(ch.drop_last()) + ch.last().children_s() }
+    else { flat_code(ch.drop_last()).push(ch.last()) }
+}
+/// PF17: a code block is `{`, one `Code` child (possibly empty), `}`, with whitespace and comments around it; in the flattened
+/// sequence a line comment is still followed by its line break (validated by `vp-replay FACTS`)
+#[verifier::external_body]
+pub proof fn pf_code_block(n: &SyntaxNode)
+    requires tree_wf(n), n.kind_s() == SyntaxKind::CodeBlock,
+    ensures
+        lc_followed(flat_code(n.children_s())),
+        forall|i: int, j: int| 0 <= i < n.children_s().len() && 0 <= j < n.children_s().len() && (#[trigger] n.children_s()[i]).kind_s() == SyntaxKind::Code
+            && (#[trigger] n.children_s()[j]).kind_s() == SyntaxKind::Code ==> i == j,
+{}
 /// PF-root: the facts above hold for every subtree without syntax errors
 #[verifier::external_body]
 pub proof fn pf_error_free(n: &SyntaxNode)
